@@ -74,6 +74,29 @@ def e2e_fault_plan(W):
     return plan
 
 
+def e2e_two_lost_deps_plan(W):
+    """minimal mode, a dependant with THREE direct dependencies whose blobs are all lost and whose outputs are wiped; the dependant's
+    input is edited.  Its task has to re-make all three (0.5 s each): one after the other or side by side, their commands still
+    count against num_workers."""
+    def plan(h, r):
+        open(os.path.join(h.ws, "grog.toml"), "w").write("num_workers = %d\n" % W)
+        T = lambda name, deps, ins, sleep: {
+            "k": "t", "pkg": "p", "name": name, "salt": "v0", "ins": ins, "glob": None, "excl": [],
+            "outs": [("file", "o_%s.txt" % name)], "deps": deps, "fp": {}, "nocache": False, "multi": False,
+            "beh": "n", "check": False, "comment": "", "sleep": sleep}
+        mk = lambda v: {"nodes": [T("a1", [], [], "0.5"), T("a2", [], [], "0.5"), T("a3", [], [], "0.5"), T("top", [0, 1, 2], ["f.txt"], None)],
+                        "files": {"p/f.txt": v}}
+        cfg = {"mode": "min", "cache": True, "workers": W}
+        h.set_sources(mk("v1")); h.build(cfg)
+        for i in range(3):
+            h.drop_blob(i, 0)
+            h.perturb(i, 0, "delete")
+        h.set_sources(mk("v2"), "input of //p:top")
+        h.build(cfg)
+        return [("workers", W), ("faulted", 1)]
+    return plan
+
+
 def e2e_backlog_plan(W, ntargets, sleep):
     """many more READY targets than workers, each command running longer than any enqueue back-stop (1 s): the commands must
     still run at most num_workers at a time"""
@@ -95,6 +118,7 @@ def e2e_campaign(out, tier):
     n = 12 if tier == "quick" else 300
     plans = [("e2e-witness-min", e2e_plan("min", True)), ("e2e-witness-all", e2e_plan("all", True))]
     plans += [("e2e-fault-nocmd-w%d" % W, e2e_fault_plan(W)) for W in (1, 2, 1, 2)]
+    plans += [("e2e-fault-three-deps-w%d" % W, e2e_two_lost_deps_plan(W)) for W in (1, 2)]
     plans += [("e2e-backlog-w1", e2e_backlog_plan(1, 4, "1.4")), ("e2e-backlog-w2", e2e_backlog_plan(2, 7, "1.2"))]
     plans += [("e2e-min", e2e_plan("min"))] * n + [("e2e-all", e2e_plan("all"))] * n
     batch = hc.run_batch(plans, vlib.seed())
